@@ -30,7 +30,48 @@ def history_of(rows, l):
     return [event_to_op(r) for r in rows[start:l]]
 
 
+MEMBERS_HEAD = "The following members must be implemented for the class:"
+
+
+def _sorted_member_list(msg):
+    """the `must be implemented` diagnostic with its list of names sorted by spelling"""
+    if MEMBERS_HEAD not in msg:
+        return msg
+    head, _, rest = msg.partition(MEMBERS_HEAD)
+    lines = rest.split("\n")
+    names = sorted(l for l in lines if l.startswith("- `"))
+    other = [l for l in lines if not l.startswith("- `")]
+    return head + MEMBERS_HEAD + "\n".join(other[:1] + names + other[1:])
+
+
+def excuse_interning_order(pid, trace, stats):
+    """Open finding `member-list-in-interning-order`: names longer than 15 bytes are ordered by when they were first
+    interned, so a long-running server and a fresh one list the missing members differently.  Where the held and the
+    fresh diagnostics differ ONLY in the order of the names of such a list, both are rewritten to the sorted form
+    (counted, reported); every other difference stays."""
+    kf = next((k for k in known_findings("C10") if k.get("region") == "member-list-in-interning-order"), None)
+    if not kf:
+        return
+    rows = read_ndjson(trace)
+    n = 0
+    for r in rows:
+        post = r.get("post") or {}
+        d, f = post.get("diag"), post.get("fresh")
+        if not isinstance(d, dict) or not isinstance(f, dict) or d == f:
+            continue
+        dc = {m: sorted(_sorted_member_list(x) for x in v) for m, v in d.items()}
+        fc = {m: sorted(_sorted_member_list(x) for x in v) for m, v in f.items()}
+        if dc == fc:
+            post["diag"], post["fresh"] = dc, fc
+            n += 1
+    if n:
+        write_ndjson(trace, rows)
+        stats["excused_member_list_order"] = stats.get("excused_member_list_order", 0) + n
+
+
 def judge(pid, cfg, trace, tag, stats, source):
+    if pid == "C10":
+        excuse_interning_order(pid, trace, stats)
     rows = read_ndjson(trace)
     env = {"TRACE": trace, "TRACE_HDR": trace + ".hdr"}
     v = tlc("ServerTrace", cfg, env=env, deque=True, tag=f"{pid}v-{tag}", timeout=3000)
@@ -119,6 +160,7 @@ def run_common(pid, cfg, tier, long_ids, queries, slices, model_invariants, n_th
         "gc_modules_per_slice": slices,
         "trace_states_checked_by_tlc": stats["tlc_states"],
         "model_drift_traces": stats["drift"],
+        "events_excused_by_member_list_order": stats.get("excused_member_list_order", 0),
         "exhaustive": False,
     }
     return coverage, fails, time.time() - t0
@@ -135,6 +177,10 @@ ASSUMPTIONS = [
 def run(tier):
     coverage, fails, wall = run_common(PID, VERDICT_CFG, tier, LONG, QUERIES, SLICES,
                                        ["C10", "SigBuiltFor", "SigDomain", "CheckedDomain", "RecheckCovers"])
+    kf = next((k for k in known_findings(PID) if k.get("region") == "member-list-in-interning-order"), None)
+    if kf:
+        n = coverage.get("events_excused_by_member_list_order", 0)
+        report_known(PID, f"{kf['what']} [{n} events of this run differ only in that order]")
     write_evidence(PID, tier, "model_checking", coverage, ASSUMPTIONS, wall, fails)
     return 1 if fails else 0
 
